@@ -151,7 +151,7 @@ impl Check for C16 {
     fn cases(&self, tier: Tier) -> u64 {
         match tier {
             Tier::Quick => 900,
-            Tier::Thorough => 3000,
+            Tier::Thorough => 12000,
         }
     }
     fn langs(&self) -> Vec<&'static str> {
